@@ -803,6 +803,12 @@ class R:
         CTX.hyp[key(v)] = (rho, s, v)
         return R.of(v)
 
+    def floor(s):
+        """floor as an integer-valued R (constant when the solver determines it under the path condition, else an integer
+        auxiliary k with k <= x < k + 1, one per distinct argument): dtmodel.rfloor"""
+        from . import dtmodel
+        return dtmodel.rfloor(s)
+
     def log(s):
         """natural logarithm as an auxiliary variable with sound (incomplete) facts: sign, the tangent bounds
         1 - 1/x <= log x <= x - 1, and coarse magnitude bounds log x < 0.6932 k for x < 2^k; one variable per distinct argument"""
